@@ -100,12 +100,20 @@ def run(ctx):
     ctx.add_tlc(r, "placement generator")
     if not r.ok:
         raise tlc.TLCError("generator failed:\n" + r.stdout[-3000:])
+    # exact ties (a pair exactly at a threshold is not bonded): coordinates and shifts are multiples of 0.5 A, exact in binary
+    cfg = cfg_with_thresholds("Gen_CellList_ties.cfg", os.path.join(wd, "ties.cfg"), th)
+    rt = tlc.run("MC_CellList", cfg, workers=1, timeout=3000)
+    ctx.add_tlc(rt, "placement generator: pairs exactly on a threshold")
+    ties = list(rt.printed)
+    for c in ties:
+        c["ties"] = True
     bm = BondMaker()
     rng = random.Random(ctx.seed)
     shifts = [(0, 0, 0), (899000 - 899000 % 251 + 17, -(99000 - 99000 % 251) - 3, 7), (-37, 251 * 11, -251 * 390 + 250)]
+    tie_shifts = [(0, 0, 0), (-500, 1000, 250), (70000, -3050, 12800)]
     bad = {}
     dirs = set()
-    for c in r.printed:
+    for c in r.printed + ties:
         pos = {i + 1: tuple(p) for i, p in enumerate(c["pos"])}
         el = {i + 1: e for i, e in enumerate(c["el"])}
         exp = {frozenset(b) for b in c["bonds"]}
@@ -113,7 +121,7 @@ def run(ctx):
         d = direction_class(pos)
         dirs.add(d)
         near = any(abs(v) <= 252 for v in (pos[2][j] - pos[1][j] for j in range(3)))
-        for sh in shifts:
+        for sh in (tie_shifts if c.get("ties") else shifts):
             atoms = mk_atoms(pos, el, c["order"], sh)
             ctx.count()
             try:
@@ -125,7 +133,7 @@ def run(ctx):
                 continue
             if got != exp:
                 kind = "missing" if exp - got else "spurious"
-                bad.setdefault(f"bondmaker:{kind}:dir{d}:{''.join(sorted(el.values()))}",
+                bad.setdefault(f"bondmaker:{kind}:{'exact-tie:' if c.get('ties') else ''}dir{d}:{''.join(sorted(el.values()))}",
                                (pos, el, c["order"], sh, f"bonds {sorted(map(sorted, got))} expected {sorted(map(sorted, exp))}"))
             if asym or selfb:
                 bad.setdefault("bondmaker:asymmetric-or-self", (pos, el, c["order"], sh, f"asym={asym} self={selfb}"))
@@ -199,7 +207,8 @@ def run(ctx):
     from .. import corpus as C, runbank
     pair, _p, _q = C.disulfide_pair()
     ss = C.chain_lines("3SGB", "E", 12, 4) + [C.TER] + C.rename_chain(C.chain_lines("3SGB", "E", 32, 4), "E", "F") + [C.TER]
-    cases = []
+    same = [C.set_resid(ln, num=42) if C.is_atom(ln) else ln for ln in pair]
+    cases = [("disulfide-same-number-E42-F42", C.join(same), []), ("disulfide-same-number-E42-F42 -i", C.join(same), ["-i", "E:42,F:42"])]
     for nm, ls, lst in (("disulfide-pair", pair, "E:42,F:58"), ("frag-3SGB-disulfide", ss, "E:42,F:58"),
                         ("frag-3SGB-disulfide", ss, "E:42"), ("frag-3SGB-disulfide", ss, "E:41,E:42,E:43,F:57,F:58,F:59")):
         text = C.join(ls)
